@@ -24,7 +24,12 @@ Open Scope N_scope.
    - every keyed event delivered before b s has been applied before the record and is in the
      checkpoint; every watermark delivered before b s has been acted on,
    - the checkpoint content is exactly what was applied before the record. *)
-(* The schedule may contain SourceComplete deliveries (IDone) and cancellations of parked calls (Cancel s):
+(* Redeployment: the log, the delivery positions and [script acts s] are those of the CURRENT deployment
+   (everything after the schedule's last Deploy; Deploy empties the log). The records of an earlier deployment
+   are covered by the same theorem applied to the prefix of the schedule that ends before the Deploy. In
+   particular every barrier counted for a record was accepted in the record's own deployment.
+   The schedule may contain sink faults (Fault): a failed sink write changes replies, never what is applied.
+   The schedule may contain SourceComplete deliveries (IDone) and cancellations of parked calls (Cancel s):
    the quantification "forall s < n_senders c" is over ALL configured runners, completed or not, and a
    parked event whose call was cancelled is delivery > b s like any other, hence only in post. *)
 Theorem consistent_cut : forall c acts x post cid snap pre,
@@ -96,17 +101,46 @@ Proof.
   assert (Hf : forall l0 z, active (fold_left apply_item l0 z) = active z).
   { induction l0 as [|b0 l0 IH]; intros z; cbn; auto. rewrite IH. reflexivity. }
   unfold flush. destruct (batch y); auto.
-  destruct (match tok with None => true | Some t => t =? btoken y end); auto. rewrite Hf. reflexivity.
+  destruct (match tok with None => true | Some t => t =? btoken y end); auto. cbn [set_fault active]. rewrite Hf. reflexivity.
 Qed.
 Theorem source_complete_keeps_alignment : forall c x s x',
   nth_error (modes x) s = Some (Passed IDone) -> step c x (Handle s) = Some x' ->
-  ckpt x' = ckpt x /\ done x' = done x /\ active (dt x') = remove_nat s (active (dt x)).
+  ckpt x' = ckpt x /\ done x' = done x /\
+  (active (dt x') = remove_nat s (active (dt x)) \/ active (dt x') = active (dt x)).
 Proof.
   intros c x s x' Hm H. cbn in H. rewrite Hm in H. destruct (active (dt x)) as [|a l] eqn:Ea; [discriminate|].
-  injection H as <-. unfold handle_item. cbn [ckpt done dt set_active active]. repeat split.
-  rewrite active_flush. cbn [push_log active]. rewrite Ea. reflexivity.
+  injection H as <-. unfold handle_item. cbn [ckpt done dt]. repeat split.
+  destruct (errored _ _); [right|left]; cbn [set_active active]; rewrite active_flush; cbn [push_log active]; rewrite Ea; reflexivity.
 Qed.
 Print Assumptions source_complete_keeps_alignment.
+
+(* HandleDeploy discards the half-aligned checkpoint of the previous assembly and starts from empty state *)
+Theorem deploy_resets_alignment : forall c x x', step c x Deploy = Some x' ->
+  ckpt x' = None /\ log (dt x') = [] /\ applied (dt x') = [] /\ batch (dt x') = [] /\
+  sent x' = repeat [] (n_senders c) /\ modes x' = modes x /\ done x' = done x.
+Proof.
+  intros c x x' H. cbn in H. destruct (forallb _ (modes x)); [|discriminate].
+  destruct (batch (dt x)); [|discriminate]. cbn in H. injection H as <-. cbn. repeat split; reflexivity.
+Qed.
+Print Assumptions deploy_resets_alignment.
+
+(* processEventBatch applies timers and state mutations before it writes to the sink: an armed sink fault
+   changes nothing of what a flush applies, logs, leaves pending or stores as timers (so the pre-checkpoint
+   flush, whose error handleCheckpointBarrier ignores, loses nothing) *)
+Lemma fold_apply_set_fault f l z : fold_left apply_item l (set_fault f z) = set_fault f (fold_left apply_item l z).
+Proof. revert z; induction l as [|b l IH]; intros z; cbn [fold_left]; auto. rewrite <- IH. reflexivity. Qed.
+Theorem sink_fault_keeps_state : forall tok y f,
+  applied (flush tok (set_fault f y)) = applied (flush tok y) /\ log (flush tok (set_fault f y)) = log (flush tok y) /\
+  batch (flush tok (set_fault f y)) = batch (flush tok y) /\ timers (flush tok (set_fault f y)) = timers (flush tok y).
+Proof.
+  intros tok y f. unfold flush. cbn [set_fault batch btoken]. destruct (batch y); [cbn; auto|].
+  destruct (match tok with None => true | Some t => t =? btoken y end); [|cbn; auto].
+  cbn [set_fault inflight wms wm timers applied log active sinkfault batch btoken armed].
+  match goal with |- context [fold_left apply_item ?l (mkDat ?a ?b ?c ?d ?e ?g ?h ?i ?j ?k f)] =>
+    change (mkDat a b c d e g h i j k f) with (set_fault f (mkDat a b c d e g h i j k (sinkfault y))) end.
+  rewrite fold_apply_set_fault. cbn. auto.
+Qed.
+Print Assumptions sink_fault_keeps_state.
 
 (* ---------- non-vacuity: enabled schedules with parked senders, a pending batch at the last barrier,
    two consecutive checkpoints, a rejected barrier, a time-out flush ---------- *)
@@ -125,3 +159,16 @@ Proof. vm_compute. reflexivity. Qed.
 Example ex_parks : option_map (fun x => nth_error (modes x) 0) (exec ex_cfg (init ex_cfg) (firstn 8 ex_acts))
                    = Some (Some (Parked 0 (IEv 4 1 0))).
 Proof. vm_compute. reflexivity. Qed.
+
+(* a redeployment in the middle of an alignment: the barrier runner 0 delivered before it does not count; the checkpoint
+   with the reused id is taken only after runner 0 delivered it again; a sink fault armed for the pre-checkpoint flush *)
+Definition ex_acts2 : list action :=
+  [Gate 0 (IBar 7); Handle 0; Deploy; Gate 1 (IEv 1 1 0); Handle 1; Gate 1 (IBar 7); Handle 1;
+   Gate 0 (IEv 2 1 0); Handle 0; Fault; Gate 0 (IBar 7); Handle 0].
+Example ex_redeploy :
+  option_map (fun x => map (fun e => match e with LCkpt c (a, _) => Some (c, length a) | _ => None end)
+                           (filter (fun e => match e with LCkpt _ _ => true | _ => false end) (log (dt x))))
+             (exec ex_cfg (init ex_cfg) ex_acts2) = Some [Some (7, 2%nat)]
+  /\ option_map (fun x => length (filter (fun e => match e with LCkpt _ _ => true | _ => false end) (log (dt x))))
+             (exec ex_cfg (init ex_cfg) (firstn 7 ex_acts2)) = Some 0%nat.
+Proof. split; vm_compute; reflexivity. Qed.
